@@ -6,7 +6,7 @@
    This file: the C06 copy IS Conn.v on the client connection seen through [conn_of]. *)
 From PM Require Import Lib.Bytes Lib.BytesFacts.
 From PM Require Net.Conn Net.ConnFacts Net.FirstRequest Net.Conversation.
-From Coq Require Import Lia.
+From Coq Require Import ZArith Lia.
 
 Module Cn := PM.Net.Conn.
 Module CF := PM.Net.ConnFacts.
@@ -62,7 +62,7 @@ Theorem conversation_flush_abstraction max os pieces c' r :
   Cn.flush_many max os (Cn.queue_all pieces Cn.new_conn) = (c', r) ->
   Cn.has_buffer c' = false ->
   Cn.sent c' = concat pieces /\
-  K.up_stream (K.up_flush (K.mkUp [] 0%Z pieces 0 false)) = Cn.sent c'.
+  K.up_stream (K.up_flush (K.mkUp [] 0%Z pieces 0%nat false)) = Cn.sent c'.
 Proof.
   intros Hf Hb.
   pose proof (CF.flush_many_conservation max os _ _ _ Hf) as Hc.
